@@ -146,11 +146,11 @@ PROPS = {
     "C14": dict(
         harness="h_life", sources=LIFE, level="exploration", exhaustive=True,
         variants=dict(quick=[V("asan", 8), V("opt", 4)], thorough=[V("asan", 8), V("opt", 4), V("align", 4)]),
-        rule="exhaustive over the stated window: 36 binary entry points (4 sum and 2 difference overloads, scalar product both ways, both commutators, 4+4 element-wise overloads, += / -= "
-             "with vectors and with every proxy kind, Evolve by an operator in four statement forms, Rotate(matrix)) x all 20 ordered pairs d1!=d2 x {library owned, externally backed on "
+        rule="exhaustive over the stated window: 45 binary entry points (4 sum and 2 difference overloads, scalar product both ways, both commutators, 4+4 element-wise overloads, += / -= "
+             "with vectors and with every proxy kind, 9 expressions whose operands are expressions, Evolve by an operator in four statement forms, Rotate(matrix)) x all 20 ordered pairs d1!=d2 x {library owned, externally backed on "
              "exact-size heap blocks}; constructors/factories with dimension 1,7,8; factory indices d..d*d+2; list lengths 1..64 except supported squares; all n1 x n2 matrices up to 7x7 "
              "except supported squares; size-changing assignments to externally backed targets. Each must throw, operands bitwise unchanged, ASan silent. distinct_nontrivial = distinct cells.",
-        floors=dict(quick={"ctor_groups": 9, "storage.external": 700, "storage.owned": 700}, thorough={"ctor_groups": 9}),
+        floors=dict(quick={"ctor_groups": 9, "storage.external": 850, "storage.owned": 850}, thorough={"ctor_groups": 9}),
         assumptions=["ASan red zones adjoin the exact-size operand blocks, so a read past the smaller operand is reported", "one process per cell is not needed: the driver restarts a shard after a sanitizer abort"],
     ),
     "C16": dict(
